@@ -7,6 +7,7 @@ package c18
 
 import (
 	"crypto/tls"
+	"crypto/x509"
 	"errors"
 	"net"
 	"time"
@@ -105,6 +106,27 @@ func Check_Exporter() {
 	sx.Assert(sx.PoolHas(dcfg.RootCAs, caPEM), "RootCAs-is-not-exactly-the-configured-CA")
 	sx.Assert(dcfg.ServerName == serverName, "ServerName-not-passed-through")
 	sx.Assert(dcfg.PSK == nil, "psk-instead-of-certificates")
+	if serverName == "" {
+		// ServerName unset: the collector's certificate is checked against the host
+		// used to contact it (documented on ExporterTLSClientConfig; tls.Dial does it
+		// by itself).  The DTLS library verifies the name only when Config.ServerName
+		// is a non-empty DNS name - for an empty name or an IP literal it skips the
+		// check - so the configuration must carry a verification callback that
+		// refuses a verified chain whose leaf is for another host.
+		host := "192.0.2.1"
+		if in.IsIPv6 {
+			host = "2001:db8::1"
+		}
+		libraryChecks := dcfg.ServerName != "" && net.ParseIP(dcfg.ServerName) == nil
+		if !libraryChecks {
+			sx.Assert(dcfg.VerifyPeerCertificate != nil, "dtls-collector-name-not-verified-when-ServerName-is-unset")
+			other := &x509.Certificate{DNSNames: []string{"some-other-host.example"}}
+			right := &x509.Certificate{IPAddresses: []net.IP{net.ParseIP(host)}}
+			sx.Assert(dcfg.VerifyPeerCertificate(nil, [][]*x509.Certificate{{other}}) != nil, "dtls-certificate-for-another-host-accepted")
+			sx.Assert(dcfg.VerifyPeerCertificate(nil, [][]*x509.Certificate{{right}}) == nil, "dtls-certificate-for-the-contacted-address-refused")
+		}
+		sx.Reach("dtls-name-unset")
+	}
 	sx.Reach("dtls")
 	rotateCA(in, fnDTLSDial)
 }
